@@ -4,7 +4,7 @@
    count and those instances are the ones the loop model continues with. *)
 From Coq Require Import List Arith Bool NArith Lia.
 Import ListNotations.
-From CV Require Import Cursor.BinaryState Passes.Edit Passes.EditProofs.
+From CV Require Import Cursor.BinaryState Cursor.BinaryProofs Passes.Edit Passes.EditProofs.
 
 (* a list of texts shaped like the result of readlines(): every element but the last is body ++ [NL] with no NL in
    body; the last may instead be a non-empty text without NL *)
@@ -118,4 +118,74 @@ Theorem markers_candidate_is_cut ismark t i e : i <= e ->
   filter ismark (lines (markers_transform ismark t i e)) = cut (filter ismark (lines t)) i e.
 Proof.
   intros H. rewrite markers_candidate_lines, filter_drop_selected by exact H. rewrite !Nat.sub_0_r. reflexivity.
+Qed.
+
+(* ---------- the byte-level loop of LinesPass IS the instance-level loop ------------------------------------
+   brun works on the file's text: the verdict sees the lines of the current text, an accepted candidate replaces the
+   text, and the instance count handed to advance_on_success is re-counted from the NEW text (what the pass does).
+   For every verdict function, text, fuel and well-formed cursor it computes exactly what `run` computes on the list
+   of lines - so every theorem about `reduce` (ranges in bounds, exactness, singles tried) is a theorem about the bytes. *)
+Section BR.
+Variable test : nat -> list text -> bst -> bool.
+Fixpoint brun (fuel k:nat) (t:text) (s:bst) (log:list entry) : option (text * list entry) :=
+  match fuel with
+  | 0 => None
+  | S f =>
+    if test k (lines t) s then
+      let t' := lines_transform t (index s) (end_ s) in
+      let log' := log ++ [(index s, end_ s, instances s, true)] in
+      match advance_on_success s (length (lines t')) with
+      | None => Some (t', log')
+      | Some s' => brun f (S k) t' s' log'
+      end
+    else
+      let log' := log ++ [(index s, end_ s, instances s, false)] in
+      match advance s with
+      | None => Some (t, log')
+      | Some s' => brun f (S k) t s' log'
+      end
+  end.
+Definition breduce (t:text) : option (text * list entry) :=
+  match create (length (lines t)) with
+  | None => Some (t, [])
+  | Some s => brun (fuel_for (length (lines t))) 0 t s []
+  end.
+
+Definition as_bytes (r:@res text) : option (text * list entry) :=
+  match r with Done l lg => Some (concat l, lg) | Fuel => None end.
+
+Theorem brun_is_run n : forall fuel k t s log,
+  WFb (lines t) s n -> brun fuel k t s log = as_bytes (run test fuel k (lines t) s log).
+Proof.
+  induction fuel as [|fuel IH]; intros k t s log W; [reflexivity|].
+  cbn [brun run].
+  assert (He : index s <= end_ s).
+  { destruct W as (Wi & Wx & Wc & _). unfold end_. lia. }
+  destruct (test k (lines t) s).
+  - destruct (lines_candidate_is_cut t (index s) (end_ s) He) as [L1 L2].
+    rewrite L1.
+    destruct (advance_on_success s (length (cut (lines t) (index s) (end_ s)))) as [s'|] eqn:A.
+    + destruct (aos_WF (lines t) s n s' W A) as [W' _].
+      rewrite <- L1 in W'. rewrite (IH (S k) _ s' _ W'). rewrite L1. reflexivity.
+    + cbn [as_bytes]. rewrite L2. reflexivity.
+  - destruct (advance s) as [s'|] eqn:A.
+    + destruct (advance_WF (lines t) s n s' W A) as [W' _]. apply (IH (S k) t s' _ W').
+    + cbn [as_bytes]. rewrite lines_concat. reflexivity.
+Qed.
+
+Theorem breduce_is_reduce t : breduce t = as_bytes (reduce test (lines t)).
+Proof.
+  unfold breduce, reduce. destruct (create (length (lines t))) as [s|] eqn:C.
+  - unfold create in C. destruct (Nat.eqb (length (lines t)) 0) eqn:Z; [discriminate|].
+    apply Nat.eqb_neq in Z. inversion C; subst s; clear C.
+    apply (brun_is_run (length (lines t))). unfold WFb; cbn [instances index chunk]. repeat split; lia.
+  - cbn [as_bytes]. rewrite lines_concat. reflexivity.
+Qed.
+End BR.
+
+(* monotone test on the lines of the file: the final TEXT is the concatenation of the required lines *)
+Corollary breduce_exact (req:text -> bool) t :
+  exists log, breduce (ok_mono req) t = Some (concat (filter req (lines t)), log).
+Proof.
+  rewrite breduce_is_reduce. destruct (reduce_exact req (lines t)) as [log R]. rewrite R. exists log. reflexivity.
 Qed.
